@@ -350,9 +350,95 @@ Val unwelcomeClient(const Val &c)
 }
 }
 
+namespace {
+// a long life of ONE TLS server: n connections one after the other - complete TLS exchanges, clear-text clients, clients that
+// connect and leave - and then one more TLS exchange.  ( 7 n ) -> ( 7 tlsRequests handlerCalls answered liveSockets )
+Val serverHistory(const Val &c)
+{
+    int n = int(c.at(1).asInt());
+    Log log;
+    QObject scope;
+    LogHandler handler(&log, &scope);
+    Server server(&handler);
+    server.setSslConfiguration(tlsConfig(0));
+    if (!server.listen(QHostAddress::LocalHost, 0)) throw std::runtime_error("nolisten");
+    int tlsRequests = 0, answered = 0;
+    auto tlsExchange = [&]() {
+        QSslSocket client;
+        client.setPeerVerifyMode(QSslSocket::VerifyNone);
+        QByteArray got;
+        QObject::connect(&client, &QSslSocket::readyRead, [&]() { got += client.readAll(); });
+        client.connectToHostEncrypted("127.0.0.1", server.serverPort());
+        ++tlsRequests;
+        if (pumpTill([&]() { return client.isEncrypted() || client.state() == QAbstractSocket::UnconnectedState; }, 2000) && client.isEncrypted()) {
+            client.write("GET /h HTTP/1.1\r\nHost: h\r\n\r\n"); client.flush();
+            pumpTill([&]() { return client.state() == QAbstractSocket::UnconnectedState; }, 2000);
+        }
+        if (got.startsWith("HTTP/1.0 200") || got.startsWith("HTTP/1.1 200")) ++answered;
+        client.abort();
+    };
+    for (int i = 0; i < n; ++i) {
+        switch (i % 3) {
+        case 0: tlsExchange(); break;
+        case 1: { QTcpSocket plain; plain.connectToHost(QHostAddress::LocalHost, server.serverPort());
+                  pumpTill([&]() { return plain.state() == QAbstractSocket::ConnectedState; }, 1000);
+                  plain.write("GET / HTTP/1.1\r\n\r\n"); plain.flush();
+                  pumpTill([&]() { return plain.state() == QAbstractSocket::UnconnectedState; }, 300); plain.abort(); break; }
+        default: { QTcpSocket idle; idle.connectToHost(QHostAddress::LocalHost, server.serverPort());
+                   pumpTill([&]() { return idle.state() == QAbstractSocket::ConnectedState; }, 1000); pumpMs(2); idle.abort(); break; }
+        }
+        pumpMs(2);
+    }
+    tlsExchange();
+    pumpMs(40);
+    return Val::List({Val::Int(7), Val::Int(tlsRequests), Val::Int(log.handler), Val::Int(answered), Val::Int(liveSockets(&server))});
+}
+}
+
+namespace {
+// the TLS configuration is set on a server that is already listening and has already served plain connections:
+// from then on it is a TLS server.  ( 8 n ) -> ( 8 plainServedBefore clearTextAnsweredAfter tlsAnsweredAfter handlerCalls )
+Val configuredLater(const Val &c)
+{
+    int n = int(c.at(1).asInt());
+    Log log;
+    QObject scope;
+    LogHandler handler(&log, &scope);
+    Server server(&handler);
+    if (!server.listen(QHostAddress::LocalHost, 0)) throw std::runtime_error("nolisten");
+    auto plainExchange = [&]() {
+        QTcpSocket plain; QByteArray got;
+        QObject::connect(&plain, &QTcpSocket::readyRead, [&]() { got += plain.readAll(); });
+        plain.connectToHost(QHostAddress::LocalHost, server.serverPort());
+        pumpTill([&]() { return plain.state() == QAbstractSocket::ConnectedState; }, 1000);
+        plain.write("GET /h HTTP/1.1\r\nHost: h\r\n\r\n"); plain.flush();
+        pumpTill([&]() { return plain.state() == QAbstractSocket::UnconnectedState; }, 400); plain.abort();
+        return got.startsWith("HTTP/1.");
+    };
+    int before = 0;
+    for (int i = 0; i < n; ++i) if (plainExchange()) ++before;
+    server.setSslConfiguration(tlsConfig(0));
+    int clearAfter = plainExchange() ? 1 : 0;
+    QSslSocket client;
+    client.setPeerVerifyMode(QSslSocket::VerifyNone);
+    QByteArray got;
+    QObject::connect(&client, &QSslSocket::readyRead, [&]() { got += client.readAll(); });
+    client.connectToHostEncrypted("127.0.0.1", server.serverPort());
+    if (pumpTill([&]() { return client.isEncrypted() || client.state() == QAbstractSocket::UnconnectedState; }, 2000) && client.isEncrypted()) {
+        client.write("GET /h HTTP/1.1\r\nHost: h\r\n\r\n"); client.flush();
+        pumpTill([&]() { return client.state() == QAbstractSocket::UnconnectedState; }, 2000);
+    }
+    client.abort();
+    pumpMs(30);
+    return Val::List({Val::Int(8), Val::Int(before), Val::Int(clearAfter), Val::Bool(got.startsWith("HTTP/1.")), Val::Int(log.handler)});
+}
+}
+
 static Val run_tls(const Val &c)
 {
     int mode = int(c.at(0).asInt());
+    if (mode == 8) return configuredLater(c);
+    if (mode == 7) return serverHistory(c);
     if (mode == 5) return unwelcomeClient(c);
     if (mode == 3) return overlapping(c);
     if (mode == 4) return destroyedMidHandshake(c);
